@@ -11,18 +11,13 @@ tree (what a file system guarantees).  All results are for `PermEq a b` with `a.
   2. `at?_perm`, `fileContent_perm`, `at?_hist_perm`, `at?_isDir_perm`, `at?_file_perm`: the look-up of a path gives
      related nodes; file contents, kinds and `ascmhl` folders are equal.  Without distinct names the look-up depends on
      the order (`fileContent_perm_needs_distinct`).
-  3. `loadHistory_perm` AS STATED IS FALSE OF THE MODEL (`loadHistory_perm_false`): `findChildrenList` evaluates the
-     children in STORED order and stops at the first damaged history, so with two differently damaged nested
-     histories the reported error depends on the listing order (the model file says so itself in the NOTE above
-     `loadHistory`).  What holds: `loadHistory_perm_partial` (equal up to WHICH error is reported),
-     `loadHistory_perm_ok`, `loadHistory_perm_cases`, and full equality when all damaged histories of the tree fail
-     with the same error, in particular with a single fault (`loadHistory_perm_single_fault`).
-  4. `verify_…`, `diff_…`, `verifyDh_…`, `create_…` (folder mode and -sf), `flatten_…`, `info_…`: the full outcome
-     (exit, report, written generations) is equal whenever loading the histories gives the same result — which by 3.
-     is the case when `loadHistory a` succeeds, or fails with the only error present in the tree.  The unconditional
-     statements are false for the reason of 3. (`verify_listing_independent_false`); the unconditional `…_cases`
-     versions say: equal, or both end with the error of a damaged history (two different ones).  With a packing list
-     (`verifyOrDiff … (some g)`) no history is loaded and the statement holds unconditionally.
+  3. `loadHistory_perm`: loading the histories gives the same result — the same history, or the SAME error
+     (`findChildren` evaluates the per-child results in the order of the names, so the first problem in walk order
+     wins whatever order the OS lists in).
+  4. `verify_listing_independent`, `diff_listing_independent`, `verifyDh_listing_independent`,
+     `createFolder_listing_independent`, `createSingleFiles_listing_independent`, `create_listing_independent`,
+     `flatten_listing_independent`, `info_listing_independent`: the full outcome (exit, report, written generations)
+     is EQUAL; also against a packing list (`verifyOrDiff_listing_independent`).
   5. `sorted_listing`, `sorted_listing_strict`: the children listed in every visit are sorted by name (`strLe`).
 -/
 import MhlProps.Proofs.PermLemmas
@@ -108,78 +103,15 @@ theorem fileContent_perm_needs_distinct :
 
 /-! ### 3. loading the histories -/
 
-/- The statement asked for,
+/-- loading the histories does not depend on the listing order: the same history, or the same error -/
+theorem loadHistory_perm {a b : Node} (hab : Node.PermEq a b) (hd : a.NamesDistinct) :
+    loadHistory a = loadHistory b :=
+  loadHistory_permEq hab hd
 
-     theorem loadHistory_perm {a b : Node} (hab : Node.PermEq a b) (hd : a.NamesDistinct) :
-         loadHistory a = loadHistory b
-
-   is FALSE of the model: see `loadHistory_perm_false`. -/
-
-/-- a nested history without chain file -/
-def badA : Node := .dir "A" [] (some { chainPresent := false })
-/-- a nested history whose only manifest was modified -/
-def badB : Node :=
-  .dir "B" [] (some { gens := [{ fileName := "0001_B_x.mhl", state := .modified }], chain := [⟨1, "0001_B_x.mhl"⟩] })
-def twoFaults₁ : Node := .dir "root" [badA, badB] none
-def twoFaults₂ : Node := .dir "root" [badB, badA] none
-
-def errOf {α : Type} : Except Err α → Option Err
-  | .error e => some e
-  | .ok _ => none
-
-theorem twoFaults_permEq : Node.PermEq twoFaults₁ twoFaults₂ := .perm "root" none (List.Perm.swap _ _ _)
-
-theorem twoFaults_namesDistinct : twoFaults₁.NamesDistinct := by
-  simp [twoFaults₁, badA, badB, Node.NamesDistinct, Node.NamesDistinctKids, Node.name]
-
-/-- `loadHistory_perm` is false: two differently damaged nested histories, two listing orders, two different errors
-(the model evaluates the children in stored order and reports the first failure) -/
-theorem loadHistory_perm_false :
-    ¬ ∀ {a b : Node}, Node.PermEq a b → a.NamesDistinct → loadHistory a = loadHistory b := by
-  intro h
-  have := congrArg errOf (h twoFaults_permEq twoFaults_namesDistinct)
-  revert this
-  decide
-
-example : errOf (loadHistory twoFaults₁) = some errNoChain ∧ errOf (loadHistory twoFaults₂) = some errModified := by
-  decide
-
-/-- PARTIAL (the full statement is false, see above): the loaded history is the same whenever loading succeeds, and
-loading fails for one listing order iff it fails for the other.  Nothing extra is assumed; what is weakened is the
-conclusion: WHICH error is reported is not claimed. -/
-theorem loadHistory_perm_partial {a b : Node} (hab : Node.PermEq a b) (hd : a.NamesDistinct) :
-    (loadHistory a).toOption = (loadHistory b).toOption :=
-  loadHistory_permEq_toOption hab hd
-
-theorem loadHistory_perm_ok {a b : Node} (hab : Node.PermEq a b) (hd : a.NamesDistinct) (h : Hist) :
-    loadHistory a = .ok h ↔ loadHistory b = .ok h := by
-  rw [← toOption_eq_some, ← toOption_eq_some, loadHistory_perm_partial hab hd]
-
-theorem loadHistory_perm_error {a b : Node} (hab : Node.PermEq a b) (hd : a.NamesDistinct) :
-    (∃ e, loadHistory a = .error e) ↔ (∃ e, loadHistory b = .error e) := by
-  rw [← toOption_eq_none, ← toOption_eq_none, loadHistory_perm_partial hab hd]
-
-/-- equal, or both fail with different errors -/
-theorem loadHistory_perm_cases {a b : Node} (hab : Node.PermEq a b) (hd : a.NamesDistinct) :
-    loadHistory a = loadHistory b ∨
-      ∃ e₁ e₂, e₁ ≠ e₂ ∧ loadHistory a = .error e₁ ∧ loadHistory b = .error e₂ :=
-  loadHistory_permEq_cases hab hd
-
-theorem loadHistory_perm_of_ok {a b : Node} (hab : Node.PermEq a b) (hd : a.NamesDistinct)
-    (hok : ∃ h, loadHistory a = .ok h) : loadHistory a = loadHistory b := by
-  obtain ⟨h, hh⟩ := hok
-  rw [hh, (loadHistory_perm_ok hab hd h).1 hh]
-
-/-- `t.HasFault e` (MhlProps/Proofs/PermLemmas.lean): the `ascmhl` folder of `t` or of a descendant fails to load with
-`e`.  An error of `loadHistory` is always such a fault. -/
-theorem loadHistory_error_is_fault {t : Node} {e : Err} (h : loadHistory t = .error e) : t.HasFault e :=
-  loadHistory_error h
-
-/-- full strength under the extra hypothesis that all damaged histories of the tree fail with the same error (in
-particular: at most one damaged history, the single-fault situation of C05) -/
-theorem loadHistory_perm_single_fault {a b : Node} (hab : Node.PermEq a b) (hd : a.NamesDistinct)
-    (h1 : ∀ e₁ e₂, a.HasFault e₁ → a.HasFault e₂ → e₁ = e₂) : loadHistory a = loadHistory b :=
-  loadHistory_permEq_single_fault hab hd h1
+/-- the walk below any folder likewise -/
+theorem findChildren_perm {a b : Node} (hab : Node.PermEq a b) (hd : a.NamesDistinct) (here : RelPath) :
+    findChildren here a = findChildren here b :=
+  findChildren_permEq hab hd here
 
 /-! ### 4. the commands -/
 
@@ -187,127 +119,46 @@ section commands
 variable (env : Env) {a b : Node} (hab : Node.PermEq a b) (hd : a.NamesDistinct)
 include hab hd
 
-/-- verify / diff against a packing list: no history is loaded, the statement holds at full strength -/
-theorem verifyOrDiff_packingList_listing_independent (o : VerifyOpts) (hashing : Bool) (g : Generation) :
-    verifyOrDiff env a o hashing (some g) = verifyOrDiff env b o hashing (some g) := by
-  unfold verifyOrDiff
-  simp only [judgeFile_perm env hab hd, visiblePaths_perm _ hab hd]
+/-- verify (`hashing = true`) / diff (`hashing = false`), against the history or against a packing list -/
+theorem verifyOrDiff_listing_independent (o : VerifyOpts) (hashing : Bool) (pl : Option Generation) :
+    verifyOrDiff env a o hashing pl = verifyOrDiff env b o hashing pl :=
+  verifyOrDiff_of_load env hab hd o hashing pl (loadHistory_perm hab hd)
 
-/- The statements asked for (`verify env a o = verify env b o` etc. from `PermEq a b` and `a.NamesDistinct` alone) are
-false for the reason `loadHistory_perm` is: see `verify_listing_independent_false`.  The `_partial` versions need the
-extra hypothesis `hl : loadHistory a = loadHistory b`, which holds when `loadHistory a` succeeds
-(`loadHistory_perm_of_ok`) and when all damaged histories fail alike (`loadHistory_perm_single_fault`); the `_cases`
-versions need nothing extra. -/
+theorem verify_listing_independent (o : VerifyOpts) : verify env a o = verify env b o :=
+  verifyOrDiff_listing_independent env hab hd o true none
 
-theorem verify_listing_independent_partial (o : VerifyOpts) (hl : loadHistory a = loadHistory b) :
-    verify env a o = verify env b o :=
-  verifyOrDiff_of_load env hab hd o true none hl
+theorem diff_listing_independent (o : VerifyOpts) : diff env a o = diff env b o :=
+  verifyOrDiff_listing_independent env hab hd _ false none
 
-theorem diff_listing_independent_partial (o : VerifyOpts) (hl : loadHistory a = loadHistory b) :
-    diff env a o = diff env b o :=
-  verifyOrDiff_of_load env hab hd _ false none hl
+theorem verifyDh_listing_independent (o : DhOpts) : verifyDh env a o = verifyDh env b o :=
+  verifyDh_of_load env hab hd o (loadHistory_perm hab hd)
 
-theorem verifyDh_listing_independent_partial (o : DhOpts) (hl : loadHistory a = loadHistory b) :
-    verifyDh env a o = verifyDh env b o :=
-  verifyDh_of_load env hab hd o hl
+theorem createFolder_listing_independent (o : CreateOpts) : createFolder env a o = createFolder env b o :=
+  createFolder_of_load env hab hd o (loadHistory_perm hab hd)
 
-theorem createFolder_listing_independent_partial (o : CreateOpts) (hl : loadHistory a = loadHistory b) :
-    createFolder env a o = createFolder env b o :=
-  createFolder_of_load env hab hd o hl
-
-theorem createSingleFiles_listing_independent_partial (o : CreateOpts) (hl : loadHistory a = loadHistory b) :
+theorem createSingleFiles_listing_independent (o : CreateOpts) :
     createSingleFiles env a o = createSingleFiles env b o :=
-  createSingleFiles_of_load env hab hd o hl
+  createSingleFiles_of_load env hab hd o (loadHistory_perm hab hd)
 
 /-- `create` in every mode (folder, -sf, -n, -dr, -i): exit, report and the written generations are equal -/
-theorem create_listing_independent_partial (o : CreateOpts) (hl : loadHistory a = loadHistory b) :
-    create env a o = create env b o :=
-  create_of_load env hab hd o hl
+theorem create_listing_independent (o : CreateOpts) : create env a o = create env b o :=
+  create_of_load env hab hd o (loadHistory_perm hab hd)
 
-/-- hence the tree after the create is again the same up to listing order at every path -/
-theorem create_written_listing_independent (o : CreateOpts) (hl : loadHistory a = loadHistory b) :
+theorem create_written_listing_independent (o : CreateOpts) :
     (create env a o).written = (create env b o).written := by
-  rw [create_listing_independent_partial env hab hd o hl]
+  rw [create_listing_independent env hab hd o]
 
-omit hab hd in
-theorem flatten_listing_independent_partial (ic ifl : List String) (hl : loadHistory a = loadHistory b) :
-    flatten env a ic ifl = flatten env b ic ifl :=
-  flatten_of_load env ic ifl hl
+theorem flatten_listing_independent (ic ifl : List String) : flatten env a ic ifl = flatten env b ic ifl :=
+  flatten_of_load env ic ifl (loadHistory_perm hab hd)
 
-/-- the versions for a tree whose histories load -/
-theorem verify_listing_independent_of_ok (o : VerifyOpts) (hok : ∃ h, loadHistory a = .ok h) :
-    verify env a o = verify env b o :=
-  verify_listing_independent_partial env hab hd o (loadHistory_perm_of_ok hab hd hok)
-
-theorem diff_listing_independent_of_ok (o : VerifyOpts) (hok : ∃ h, loadHistory a = .ok h) :
-    diff env a o = diff env b o :=
-  diff_listing_independent_partial env hab hd o (loadHistory_perm_of_ok hab hd hok)
-
-theorem verifyDh_listing_independent_of_ok (o : DhOpts) (hok : ∃ h, loadHistory a = .ok h) :
-    verifyDh env a o = verifyDh env b o :=
-  verifyDh_listing_independent_partial env hab hd o (loadHistory_perm_of_ok hab hd hok)
-
-theorem create_listing_independent_of_ok (o : CreateOpts) (hok : ∃ h, loadHistory a = .ok h) :
-    create env a o = create env b o :=
-  create_listing_independent_partial env hab hd o (loadHistory_perm_of_ok hab hd hok)
-
-/-- unconditional: the outcomes are equal, or both commands end before looking at any file with the error of a
-damaged history (a different one each) -/
-theorem verify_listing_independent_cases (o : VerifyOpts) :
-    verify env a o = verify env b o ∨
-      ∃ e₁ e₂, e₁ ≠ e₂ ∧ loadHistory a = .error e₁ ∧ loadHistory b = .error e₂ ∧
-        verify env a o = { err := some e₁ } ∧ verify env b o = { err := some e₂ } := by
-  rcases loadHistory_perm_cases hab hd with hl | ⟨e₁, e₂, hne, h1, h2⟩
-  · exact Or.inl (verify_listing_independent_partial env hab hd o hl)
-  · refine Or.inr ⟨e₁, e₂, hne, h1, h2, ?_, ?_⟩
-    · simp only [verify, verifyOrDiff, h1]
-    · simp only [verify, verifyOrDiff, h2]
-
-theorem diff_listing_independent_cases (o : VerifyOpts) :
-    diff env a o = diff env b o ∨
-      ∃ e₁ e₂, e₁ ≠ e₂ ∧ loadHistory a = .error e₁ ∧ loadHistory b = .error e₂ ∧
-        diff env a o = { err := some e₁ } ∧ diff env b o = { err := some e₂ } := by
-  rcases loadHistory_perm_cases hab hd with hl | ⟨e₁, e₂, hne, h1, h2⟩
-  · exact Or.inl (diff_listing_independent_partial env hab hd o hl)
-  · refine Or.inr ⟨e₁, e₂, hne, h1, h2, ?_, ?_⟩
-    · simp only [diff, verifyOrDiff, h1]
-    · simp only [diff, verifyOrDiff, h2]
-
-theorem verifyDh_listing_independent_cases (o : DhOpts) :
-    verifyDh env a o = verifyDh env b o ∨
-      ∃ e₁ e₂, e₁ ≠ e₂ ∧ loadHistory a = .error e₁ ∧ loadHistory b = .error e₂ ∧
-        verifyDh env a o = { err := some e₁ } ∧ verifyDh env b o = { err := some e₂ } := by
-  rcases loadHistory_perm_cases hab hd with hl | ⟨e₁, e₂, hne, h1, h2⟩
-  · exact Or.inl (verifyDh_listing_independent_partial env hab hd o hl)
-  · refine Or.inr ⟨e₁, e₂, hne, h1, h2, ?_, ?_⟩
-    · simp only [verifyDh, h1]
-    · simp only [verifyDh, h2]
-
-theorem create_listing_independent_cases (o : CreateOpts) :
-    create env a o = create env b o ∨
-      ∃ e₁ e₂, e₁ ≠ e₂ ∧ loadHistory a = .error e₁ ∧ loadHistory b = .error e₂ ∧
-        create env a o = { err := some e₁ } ∧ create env b o = { err := some e₂ } := by
-  rcases loadHistory_perm_cases hab hd with hl | ⟨e₁, e₂, hne, h1, h2⟩
-  · exact Or.inl (create_listing_independent_partial env hab hd o hl)
-  · refine Or.inr ⟨e₁, e₂, hne, h1, h2, ?_, ?_⟩
-    · simp only [create, createFolder, createSingleFiles, h1, ite_self]
-    · simp only [create, createFolder, createSingleFiles, h2, ite_self]
+omit env in
+theorem info_listing_independent : info a = info b :=
+  info_of_load (loadHistory_perm hab hd)
 
 end commands
 
 /-- a concrete environment (the hash of a file is a fixed string, nothing is ignored) -/
 def exEnv : Env := { H := fun _ _ => "00", D := fun _ _ => none, hit := fun _ _ => false, rootName := "root" }
-
-/-- the unconditional statement is false for every command that loads the histories: the exit code of verify on the
-two listings of `loadHistory_perm_false` differs -/
-theorem verify_listing_independent_false :
-    ¬ ∀ (env : Env) {a b : Node}, Node.PermEq a b → a.NamesDistinct → ∀ o, verify env a o = verify env b o := by
-  intro h
-  have := congrArg Outcome.exitCode (h exEnv twoFaults_permEq twoFaults_namesDistinct {})
-  revert this
-  decide
-
-example : (verify exEnv twoFaults₁ {}).exitCode = 32 ∧ (verify exEnv twoFaults₂ {}).exitCode = 31 := by decide
 
 /-! ### 5. the order in the manifest is the order of the names -/
 
@@ -379,18 +230,11 @@ theorem exA_permEq_exB : Node.PermEq exA exB := by
 theorem exA_namesDistinct : exA.NamesDistinct := by
   simp [exA, exSub₁, Node.NamesDistinct, Node.NamesDistinctKids, Node.name]
 
-/-- the histories of the example load (so the `_of_ok` theorems apply) -/
-theorem exA_loads : ∃ h, loadHistory exA = .ok h := by
-  have h : (loadHistory exA).toOption.isSome = true := by decide
-  cases hl : loadHistory exA with
-  | ok v => exact ⟨v, rfl⟩
-  | error e => rw [hl] at h; simp [Except.toOption] at h
-
 example : verify exEnv exA {} = verify exEnv exB {} :=
-  verify_listing_independent_of_ok exEnv exA_permEq_exB exA_namesDistinct {} exA_loads
+  verify_listing_independent exEnv exA_permEq_exB exA_namesDistinct {}
 
 example : create exEnv exA {} = create exEnv exB {} :=
-  create_listing_independent_of_ok exEnv exA_permEq_exB exA_namesDistinct {} exA_loads
+  create_listing_independent exEnv exA_permEq_exB exA_namesDistinct {}
 
 /-- and the result is not trivial: verify reports the new file `a.txt` and the files of `sub` on both listings -/
 example : (verify exEnv exA {}).report.new = ["sub/x", "sub/y", "a.txt"] ∧
@@ -399,30 +243,38 @@ example : (verify exEnv exA {}).report.new = ["sub/x", "sub/y", "a.txt"] ∧
 example : (traverse (fun _ => false) [] exA).map (·.children) =
     [[("x", false), ("y", false)], [("a.txt", false), ("b.txt", false), ("sub", true)]] := by decide
 
-/-- one damaged nested history: the single-fault hypothesis holds and loading fails alike on both listings -/
-def oneFault₁ : Node := .dir "root" [badA, .file "f" []] none
-def oneFault₂ : Node := .dir "root" [.file "f" [], badA] none
+/-! two differently damaged sibling histories, listed in two orders: the same error (that of the history whose name
+comes first) is reported for both listings -/
 
-theorem oneFault_single : ∀ e₁ e₂, oneFault₁.HasFault e₁ → oneFault₁.HasFault e₂ → e₁ = e₂ := by
-  have key : ∀ e, oneFault₁.HasFault e → e = errNoChain := by
-    intro e h
-    cases h with
-    | inside hc h =>
-      simp only [List.mem_cons, List.not_mem_nil, or_false] at hc
-      rcases hc with rfl | rfl
-      · cases h with
-        | self h =>
-          have h' : (Except.error errNoChain : Except Err Hist) = .error e := h
-          cases h'; rfl
-        | inside hc _ => simp at hc
-      · cases h
-  intro e₁ e₂ h₁ h₂
-  rw [key e₁ h₁, key e₂ h₂]
+/-- a nested history without chain file -/
+def badA : Node := .dir "A" [] (some { chainPresent := false })
+/-- a nested history whose only manifest was modified -/
+def badB : Node :=
+  .dir "B" [] (some { gens := [{ fileName := "0001_B_x.mhl", state := .modified }], chain := [⟨1, "0001_B_x.mhl"⟩] })
+def twoFaults₁ : Node := .dir "root" [badA, badB] none
+def twoFaults₂ : Node := .dir "root" [badB, badA] none
 
-example : loadHistory oneFault₁ = loadHistory oneFault₂ :=
-  loadHistory_perm_single_fault (.perm "root" none (List.Perm.swap _ _ _))
-    (by simp [oneFault₁, badA, Node.NamesDistinct, Node.NamesDistinctKids, Node.name]) oneFault_single
+def errOf {α : Type} : Except Err α → Option Err
+  | .error e => some e
+  | .ok _ => none
 
-example : errOf (loadHistory oneFault₁) = some errNoChain := by decide
+theorem twoFaults_permEq : Node.PermEq twoFaults₁ twoFaults₂ := .perm "root" none (List.Perm.swap _ _ _)
+
+theorem twoFaults_namesDistinct : twoFaults₁.NamesDistinct := by
+  simp [twoFaults₁, badA, badB, Node.NamesDistinct, Node.NamesDistinctKids, Node.name]
+
+example : loadHistory twoFaults₁ = loadHistory twoFaults₂ :=
+  loadHistory_perm twoFaults_permEq twoFaults_namesDistinct
+
+example : errOf (loadHistory twoFaults₁) = some errNoChain ∧ errOf (loadHistory twoFaults₂) = some errNoChain := by
+  decide
+
+example : verify exEnv twoFaults₁ {} = verify exEnv twoFaults₂ {} :=
+  verify_listing_independent exEnv twoFaults_permEq twoFaults_namesDistinct {}
+
+example : (verify exEnv twoFaults₁ {}).exitCode = 32 ∧ (verify exEnv twoFaults₂ {}).exitCode = 32 := by decide
+
+/-- the faults are really different: alone, `badB` gives another error -/
+example : errOf (loadHistory (.dir "root" [badB] none)) = some errModified := by decide
 
 end MhlProps.C13
